@@ -1008,3 +1008,38 @@ def rule_cache_operand_agreement(db: ProgramDB) -> List[Instance]:
     if n == 0:
         raise AnalysisError("no operand cache (left_cache / right_cache) found")
     return out
+
+
+# ---------------------------------------------------------------------------------- COVERAGE-ONLY-IF-STORED
+def rule_coverage_only_if_stored(db: ProgramDB) -> List[Instance]:
+    """insert() records the binding as covered and walks the key levels to store the output.  With an empty key list (the
+    cache of a comparison between two literals) there is no level: nothing is stored, so nothing may be recorded as covered
+    - the empty binding covers every lookup, and every later lookup would be answered from an empty index."""
+    from ..abseval import AbsEval, State, TRUE, EMPTY
+    out = []
+    ic = db.cls("IndexedCache")
+    m = ic.methods.get("insert")
+    if m is None:
+        raise AnalysisError("IndexedCache.insert not found")
+    cfg = CFG(m)
+
+    def attr_hook(e, st, ev_):
+        if isinstance(e, ast.Attribute) and isinstance(e.value, ast.Name) and e.value.id == "self" and e.attr in ("keys", "_keys"):
+            return EMPTY
+        return None
+    ev = AbsEval(db, m, cfg, attr_hook=attr_hook)
+
+    def records(nd) -> bool:
+        return nd.ast is not None and nd.kind == "stmt" and any(
+            isinstance(c, ast.Call) and call_attr(c) == "add" and "seen" in unparse(c.func.value) for c in ast.walk(nd.ast))
+    if not any(records(nd) for nd in cfg.nodes):
+        raise AnalysisError("IndexedCache.insert: recording of coverage (seen_set.add) not found")
+    init = State({"index": TRUE}) if "index" in m.params else State({})
+    p = ev.explore([(cfg.entry, init)], records, kinds=("n",))
+    ok = p is None
+    out.append(inst("INSERT-RETRIEVABLE", HOLDS if ok else VIOLATION, m, "IndexedCache.insert[index=True, no keys]",
+                    "with an empty key list nothing is recorded as covered" if ok else
+                    "with an empty key list insert() records the binding as covered although it has no level to store the output under: the "
+                    "empty binding covers every lookup, so a comparison between two literals is answered from an empty cache from its second "
+                    "row on (and_(p.k >= 1, contains([1, 2], 1)) returns one row, then none)", line=m.lineno))
+    return out
